@@ -221,6 +221,61 @@ Proof.
   apply (unpack_holds ds TI rt A cap _ LL v valsf bf Hf).
 Qed.
 
+(* ---- the carried list of a stage is only a witness of the split: the run never looks at it *)
+Definition with_carried (u : ustage) (c : list nat) : ustage :=
+  let s := u_s u in
+  mkUStage (mkStage (s_Q s) (s_minus s) (s_plus s) c (s_andout s) (s_pvals s) (s_ops s) (s_v s) (s_prev s))
+           (u_uninit u) (u_fill u).
+
+Fixpoint uchain_ok_ex (P : list nat) (stages : list ustage) : Prop :=
+  match stages with
+  | [] => True
+  | u :: rest =>
+      let s := u_s u in
+      layout_ok ds TI A cap (s_Q s) /\
+      (exists car, Permutation P (s_minus s ++ car) /\ Permutation (s_Q s) (s_plus s ++ car)) /\
+      Forall (fun o => In (lop_field o) (s_Q s)) (s_ops s) /\
+      (u_uninit u = true -> forall i, In i (s_plus s) -> un ds i = true -> dr ds TI i = false) /\
+      uchain_ok_ex (s_Q s) rest
+  end.
+
+Lemma uchain_ok_ex_witness : forall stages P, uchain_ok_ex P stages ->
+  exists stages', uchain_ok P stages' /\ (forall b, uchain_run b stages' = uchain_run b stages) /\
+                  ulast_data P stages' = ulast_data P stages /\ uentered stages' = uentered stages.
+Proof.
+  induction stages as [|u rest IH]; intros P H.
+  - exists []. repeat split; auto.
+  - destruct H as (LQ & (car & PP & PQ) & HF & Hpl & Hr).
+    destruct (IH _ Hr) as (rest' & Hok & Hrun & Hlast & Hent).
+    exists (with_carried u car :: rest'). split; [|split; [|split]].
+    + cbn [uchain_ok with_carried u_s u_uninit s_Q s_minus s_plus s_carried s_ops]. repeat (split; [assumption|]). exact Hok.
+    + intros b. cbn [uchain_run with_carried u_s u_uninit u_fill s_Q s_minus s_plus s_carried s_ops s_andout s_pvals s_v s_prev].
+      unfold fill_ops. cbn [with_carried u_s u_uninit u_fill s_plus].
+      destruct (op_conv ds TI rt A cap (s_v (u_s u)) (s_prev (u_s u)) (s_minus (u_s u)) (s_plus (u_s u)) (u_uninit u)
+                  (s_andout (u_s u)) b (s_pvals (u_s u))) as [[out d0]|e]; auto.
+      destruct out; auto;
+        repeat match goal with
+               | |- context [match life ds TI rt ?bb ?ops with _ => _ end] =>
+                   destruct (life ds TI rt bb ops) as [[? ?]|?]; auto
+               end; rewrite Hrun; reflexivity.
+    + unfold ulast_data in *. cbn [map last_data fold_left with_carried u_s s_Q]. exact Hlast.
+    + unfold uentered in *. cbn [map entered flat_map with_carried u_s s_plus s_pvals s_ops]. f_equal. exact Hent.
+Qed.
+
+Theorem uchain_then_drop_ex : forall stages P vals b v,
+  layout_ok ds TI A cap P -> uchain_ok_ex P stages -> holds ds TI cap A P vals b ->
+  layout_ok ds TI A cap (ulast_data P stages) ->
+  exists bf d r dropped, uchain_run b stages = Ok (bf, d, r) /\
+    op_drop ds TI rt A cap v (ulast_data P stages) bf = Ok (ONone, dropped) /\
+    Permutation (d ++ dropped ++ r) (map vals (filter (dr ds TI) P) ++ uentered stages).
+Proof.
+  intros stages P vals b v LP Hc H LL.
+  destruct (uchain_ok_ex_witness stages P Hc) as (stages' & Hok & Hrun & Hlast & Hent).
+  rewrite <- Hlast in LL.
+  destruct (uchain_then_drop stages' P vals b v LP Hok H LL) as (bf & d & r & dropped & E1 & E2 & Pm).
+  exists bf, d, r, dropped. rewrite <- Hrun, <- Hlast, <- Hent. auto.
+Qed.
+
 (* a chain of Chain.v is a chain here *)
 Lemma uchain_of_chain : forall stages b,
   uchain_run b (map (fun s => mkUStage s false (fun _ => 0%nat)) stages) = chain_run ds TI rt A cap b stages.
